@@ -437,6 +437,7 @@ type ModLoc struct {
 }
 
 type LoopSpec struct {
+	Entry      []Clause // `loop N entry TAG: P`: proved when the loop is entered, neither assumed nor kept
 	Invariants []Clause
 	Modifies   []ModLoc // optional region frame for the loop
 	Decreases  *Clause
@@ -749,6 +750,12 @@ func (cs *ContractSet) LoadContractFile(path, pkgName string, trusted bool) erro
 						return fail(err)
 					}
 					ls.Invariants = append(ls.Invariants, c)
+				case "entry":
+					c, err := mk(r3)
+					if err != nil {
+						return fail(err)
+					}
+					ls.Entry = append(ls.Entry, c)
 				case "modifies":
 					ml, err := parseModList(r3)
 					if err != nil {
